@@ -585,7 +585,7 @@ fn ep_c12(s: &mut S, r: &mut Rng, maxc: usize, maxr: usize) {
 // ---------------------------------------------------------------------------------- C13 / C14
 
 fn scrolly(r: &mut Rng, c: usize, rr: usize) -> String {
-    match r.n(14) {
+    match r.n(16) {
         0..=3 => "\r\n".to_string(),
         4 => "\n".to_string(),
         5 => {
@@ -606,6 +606,10 @@ fn scrolly(r: &mut Rng, c: usize, rr: usize) -> String {
         10 => gen::alt_screen(r),
         11 => gen::csi2(gen::count(r, rr), gen::count(r, c), "H", r),
         12 => gen::sgr_small(r),
+        13 => {
+            // scroll-downs that start at the top row (the row above them is in the scrollback)
+            r.pick(&["\x1b[1;1H\x1bM", "\x1b[1;1H\x1b[L", "\x1b[T", "\x1b[1;1H\x1b[2L", "\x1b[r\x1b[1;1H\x1bM"]).to_string()
+        }
         _ => gen::print(r),
     }
 }
